@@ -192,3 +192,11 @@ Definition list_pop_last {A} (l : list A) : res (A * list A) :=
   | [] => Raise "IndexError"
   | x :: r => Ok (x, rev r)
   end.
+
+(* l.index(v) on a list of ints: the first position, or None for ValueError *)
+Fixpoint list_index_from (l : list Z) (v : Z) (i : Z) : option Z :=
+  match l with
+  | [] => None
+  | x :: r => if Z.eqb x v then Some i else list_index_from r v (i + 1)
+  end.
+Definition list_index (l : list Z) (v : Z) : option Z := list_index_from l v 0.
